@@ -17,6 +17,7 @@ type Prelude struct {
 	Axioms    []*PDef
 	UsesTypes []string
 	Opaque    map[string]bool
+	Ghosts    map[string]string // ghost state variables (name -> sort), ";@ ghost name Sort"
 }
 
 type PDef struct {
@@ -132,7 +133,7 @@ func readSort(toks []string, i int) (string, int) {
 }
 
 func LoadPrelude(dir string) (*Prelude, error) {
-	p := &Prelude{Defs: map[string]*PDef{}, Opaque: map[string]bool{}}
+	p := &Prelude{Defs: map[string]*PDef{}, Opaque: map[string]bool{}, Ghosts: map[string]string{}}
 	files, _ := filepath.Glob(filepath.Join(dir, "*.smt2"))
 	sort.Strings(files)
 	for _, f := range files {
@@ -143,6 +144,11 @@ func LoadPrelude(dir string) (*Prelude, error) {
 		for _, line := range strings.Split(string(data), "\n") {
 			if strings.HasPrefix(line, ";@ uses-type ") {
 				p.UsesTypes = append(p.UsesTypes, strings.Fields(strings.TrimPrefix(line, ";@ uses-type "))...)
+			}
+			if strings.HasPrefix(line, ";@ ghost ") {
+				if fs := strings.Fields(strings.TrimPrefix(line, ";@ ghost ")); len(fs) == 2 {
+					p.Ghosts[fs[0]] = fs[1]
+				}
 			}
 			if strings.HasPrefix(line, ";@ opaque ") {
 				for _, n := range strings.Fields(strings.TrimPrefix(line, ";@ opaque ")) {
